@@ -250,6 +250,7 @@ class RDFLibGraphsAdapter(RDFLibQuadsBaseAdapter):
 
     @override
     def triple(self, terms: Iterable[Any]) -> Quad:
+        _ = self.graph  # raises JellyConformanceError if no graph is open
         return Quad(*chain(terms, [self._graph_id]))
 
     @override
